@@ -57,17 +57,17 @@ theorem rejoin_S (ds : List Decision) :
      if r.action = .allow then (⟨.allow, joinComma (ds.map (·.reason))⟩ : Decision) else r).action = S ds :=
   rejoin_action ds
 
-theorem text_atom_S (s : Option String) (cwd : String) (r : Bool) :
-    S (atomDecisions w rec h (.text s cwd r)) = S (scanArg rec s cwd r) := rfl
+theorem text_atom_S (ps : Bool) (s : Option String) (cwd : String) (r : Bool) :
+    S (atomDecisions w rec h (.text ps s cwd r)) = S (scanArg rec ps s cwd r) := rfl
 
-theorem L_texts (ts : List String) (cwd : String) (r : Bool) :
-    L w rec h (ts.map fun t => Atom.text (some t) cwd r) = S (ts.flatMap fun t => scanArg rec (some t) cwd r) := by
+theorem L_texts (ps : Bool) (ts : List String) (cwd : String) (r : Bool) :
+    L w rec h (ts.map fun t => Atom.text ps (some t) cwd r) = S (ts.flatMap fun t => scanArg rec ps (some t) cwd r) := by
   induction ts with
   | nil => rfl
   | cons t ts ih => simp [L_cons, atomDecisions, List.flatMap_cons, ih]
 
-theorem scanArg_some (t : String) (cwd : String) (r : Bool) :
-    S (scanArg rec (some t) cwd r) = S (scanDecisions rec t cwd r) := by
+theorem scanArg_some (ps : Bool) (t : String) (cwd : String) (r : Bool) :
+    S (scanArg rec ps (some t) cwd r) = S (scanDecisions rec ps t cwd r) := by
   unfold scanArg Py.truthy
   by_cases ht : t.isEmpty = true
   · have : t = "" := by simpa using ht
@@ -89,7 +89,7 @@ theorem expansion_flat (wd : Word) (p : Part) (cwd : String) (r : Bool) :
   cases p <;> simp [expansionTexts, expansionAtoms, L_cons, atomDecisions]
   · -- arith
     rw [L_texts]
-    exact S_flatMap_congr _ _ _ (fun t _ => (scanArg_some rec t cwd r).symm)
+    exact S_flatMap_congr _ _ _ (fun t _ => (scanArg_some rec false t cwd r).symm)
 
 mutual
 
@@ -279,15 +279,12 @@ theorem word_flat : ∀ (wd : Word) (cwd : String) (r : Bool),
     S (aWord w rec h wd cwd r) = L w rec h (flatWord w.syn wd cwd r)
   | .mk v ps, cwd, r => by simp only [aWord, flatWord]; exact wordParts_flat (.mk v ps) ps cwd r
 
-theorem condOperand_flat : ∀ (wd : Word) (cwd : String) (r : Bool),
-    S (aCondOperand w rec h wd cwd r) = L w rec h (flatCondOperand w.syn wd cwd r)
+theorem condOperand_flat (regex : Bool) : ∀ (wd : Word) (cwd : String) (r : Bool),
+    S (aCondOperand w rec h regex wd cwd r) = L w rec h (flatCondOperand w.syn regex wd cwd r)
   | .mk v ps, cwd, r => by
-    simp only [aCondOperand, flatCondOperand]
-    split
-    · exact wordParts_flat (.mk v ps) ps cwd r
-    · split
-      · rfl
-      · simp [L_cons, atomDecisions]
+    simp only [aCondOperand, flatCondOperand, S_append, L_append]
+    rw [wordParts_flat (.mk v ps) ps cwd r]
+    split <;> simp [L_cons, atomDecisions]
 
 theorem words_flat : ∀ (ws : List Word) (cwd : String) (r : Bool),
     S (aWords w rec h ws cwd r) = L w rec h (flatWords w.syn ws cwd r)
@@ -333,10 +330,10 @@ theorem casePats_flat : ∀ (ps : List CasePat) (cwd : String) (r : Bool),
 
 theorem cond_flat : ∀ (c : Cond) (cwd : String) (r : Bool),
     S (aCond w rec h c cwd r) = L w rec h (flatCond w.syn c cwd r)
-  | .unary _ o, cwd, r => by simp only [aCond, flatCond]; exact condOperand_flat o cwd r
+  | .unary _ o, cwd, r => by simp only [aCond, flatCond]; exact condOperand_flat false o cwd r
   | .binary _ l r', cwd, r => by
     simp only [aCond, flatCond, S_append, L_append]
-    rw [condOperand_flat l cwd r, condOperand_flat r' cwd r]
+    rw [condOperand_flat false l cwd r, condOperand_flat _ r' cwd r]
   | .and l r', cwd, r => by
     simp only [aCond, flatCond, S_append, L_append]
     rw [cond_flat l cwd r, cond_flat r' cwd r]
